@@ -114,6 +114,9 @@ type EnvCfg struct {
 }
 
 type Cfg struct {
+	// Late - SetMode / SetMapKeysToLower and the root's unknown mode / require-order are applied AFTER the commands
+	// were declared (the order of these calls is not part of the documented protocol; the outcome must not depend on it)
+	Late  bool      `json:"late"`
 	Mode  int       `json:"mode"`
 	Lower bool      `json:"lower"`
 	Prog  Tok       `json:"prog"`
